@@ -138,3 +138,57 @@ Fixpoint strictly_increasing (l : list Z) : Prop :=
   | [] => True
   | x :: r => match r with [] => True | y :: _ => x < y end /\ strictly_increasing r
   end.
+
+(* the set a type bitmap stands for: the distinct non-zero types, ascending *)
+Definition is_type_set (ts set : list Z) : Prop :=
+  strictly_increasing set /\ forall t, In t set <-> In t ts /\ t <> 0.
+
+(* ---------- RFC 4035 2.2/2.3 (RFC 4034 4): the NSEC chain of a signed zone ---------- *)
+Section NsecChain.
+  (* origin: absolute zone name; apex: the name under which the zone stores its apex node
+     (the origin, or the empty name in a relativized zone); nodes: owner -> rdataset types *)
+  Variables (origin apex : name) (nodes : list znode).
+
+  Definition types_at (n : name) : list Z :=
+    match get_node nodes n with Some ts => ts | None => [] end.
+
+  (* a delegation point: an NS RRset at a name other than the apex *)
+  Definition rfc_cut (n : name) : bool := has_type (types_at n) tNS && negb (name_eqb n apex).
+
+  (* names below a zone cut (glue, occluded data) are not authoritative: no NSEC, no RRSIG *)
+  Definition rfc_occluded (names : list name) (n : name) : bool :=
+    existsb (fun d => rfc_cut d && negb (name_eqb d n) && is_subdomain n d) names.
+
+  (* `sorted`: the owner names in canonical order (RFC 4034 6.1) *)
+  Definition rfc_secure (sorted : list name) : list name :=
+    filter (fun n => negb (rfc_occluded sorted n)) sorted.
+
+  (* the types listed in the NSEC at n: everything at the name, at a delegation point only NS and
+     DS (RFC 4035 2.3), plus NSEC itself and its RRSIG *)
+  Definition rfc_present_types (n : name) : list Z :=
+    (if rfc_cut n then filter (fun t => (t =? tNS) || (t =? tDS)) (types_at n) else types_at n)
+    ++ [tRRSIG; tNSEC].
+
+  (* every authoritative name once, in canonical order, next = successor, the last wraps to the origin *)
+  Fixpoint rfc_chain (l : list name) : list (name * name * list Z) :=
+    match l with
+    | [] => []
+    | a :: r => (a, match r with [] => origin | b :: _ => b end, rfc_present_types a) :: rfc_chain r
+    end.
+
+  (* the RRsets that get signatures: authoritative data except RRSIGs; at a delegation only DS *)
+  Definition rfc_signed (l : list name) : list (name * Z) :=
+    flat_map (fun n => map (pair n)
+                (filter (fun t => negb (t =? tRRSIG) && (negb (rfc_cut n) || (t =? tDS))) (types_at n))) l.
+End NsecChain.
+
+Definition nsec_calls (cs : list scall) : list (name * name * list (Z * bytes)) :=
+  flat_map (fun c => match c with SignNSEC n nx ws => [(n, nx, ws)] | SignRR _ _ => [] end) cs.
+Definition rr_calls (cs : list scall) : list (name * Z) :=
+  flat_map (fun c => match c with SignRR n t => [(n, t)] | SignNSEC _ _ _ => [] end) cs.
+
+(* an NSEC record handed to the signer against a reference chain entry: same owner, same next,
+   and a well-formed bitmap that stands for exactly the reference type set *)
+Definition nsec_matches (got : name * name * list (Z * bytes)) (ref : name * name * list Z) : Prop :=
+  fst (fst got) = fst (fst ref) /\ snd (fst got) = snd (fst ref) /\
+  bitmap_wf (snd got) /\ is_type_set (snd ref) (bitmap_types (snd got)).
